@@ -497,10 +497,15 @@ func init() {
 		}
 	}
 	families["deep"] = func(r *rng, n int, emit emitFn) {
+		// balanced nestings are placed in every expression position (the cost of a position may
+		// depend on what the compiler does with it: naming an unnamed column, error positions, ...)
+		contexts := []string{"T | where %s", "T | extend %s", "T | extend x = %s", "T | summarize %s", "T | summarize count() by %s", "T | summarize x = %s by k",
+			"T | project x = %s", "T | sort by %s desc", "T | take %s", "T | top 3 by %s", "T | top %s by a", "T | join (U) on %s", "let v = %s; T | where v",
+			"T | render c with (p = %s)", "T | where a in (%s)", "T | where f(1, %s)", "T | join (U | extend %s) on k", "T; U | extend %s", "T | extend %s; U", "T | where a | extend %s, b | count"}
 		for i := 0; i < n; i++ {
 			d := 1 + r.intn(200)
 			var s string
-			switch r.intn(13) {
+			switch r.intn(14) {
 			case 8:
 				s = "T" + strings.Repeat(" | join (T", d)
 			case 9:
@@ -511,22 +516,33 @@ func init() {
 				s = "T" + strings.Repeat(" | join kind=inner (T | where a[", d)
 			case 12:
 				s = "T | where " + strings.Repeat("a + -(", d)
-			case 0:
-				s = "T | where " + strings.Repeat("(", d) + "a" + strings.Repeat(")", d)
-			case 1:
-				s = "T | where " + strings.Repeat("-", d) + "a"
-			case 2:
-				s = "T | where " + strings.Repeat("f(", d) + "a" + strings.Repeat(")", d)
 			case 3:
 				s = "T" + strings.Repeat(" | join (U", d) + strings.Repeat(") on k", d)
-			case 4:
-				s = "T | where a" + strings.Repeat("[a", d) + strings.Repeat("]", d)
-			case 5:
-				s = "T | where a" + strings.Repeat(" + a", d)
 			case 6:
 				s = "T | where " + strings.Repeat("(", d) + strings.Repeat("]", d)
 			default:
-				s = "T | where a" + strings.Repeat(" in (a", d) + strings.Repeat(")", d)
+				var e string
+				switch r.intn(9) {
+				case 0:
+					e = strings.Repeat("(", d) + "a" + strings.Repeat(")", d)
+				case 1:
+					e = strings.Repeat("-", d) + "a"
+				case 2:
+					e = strings.Repeat("f(", d) + "a" + strings.Repeat(")", d)
+				case 3:
+					e = "a" + strings.Repeat("[a", d) + strings.Repeat("]", d)
+				case 4:
+					e = "a" + strings.Repeat(" + a", d)
+				case 5:
+					e = strings.Repeat("f(1, g(", d) + "a" + strings.Repeat("))", d)
+				case 6:
+					e = strings.Repeat("not(", d) + "a" + strings.Repeat(")", d)
+				case 7:
+					e = strings.Repeat("strcat(a, ", d) + "a" + strings.Repeat(")", d)
+				default:
+					e = "a" + strings.Repeat(" in (a", d) + strings.Repeat(")", d)
+				}
+				s = fmt.Sprintf(pick(r, contexts), e)
 			}
 			emit(hx(s))
 		}
